@@ -61,6 +61,33 @@ def is_array(v):
     return isinstance(v, (A.Array1D, A.Array2D))
 
 
+class St(str):
+    """optional last component of a case: HOW the call is written (keyword arguments, one-shot iterables, run-time
+    strings ...).  The model sees the same request whatever the style."""
+
+
+def split(case):
+    if isinstance(case[-1], St):
+        return case[:-1], str(case[-1])
+    return case, ""
+
+
+class Opaque:
+    """an operand that is a plain Python container / one-shot iterable of otherwise valid items (list, tuple, generator,
+    map, zip, iter, reversed).  It is not an expression or an array: for the model it is an object of an unrelated class
+    (token N, like None).  A fresh object is made for every call."""
+
+    def __init__(self, how, items):
+        self.how, self.items = how, list(items)
+
+    def make(self):
+        return wrap_iter(list(self.items), self.how)
+
+
+def real(v):
+    return v.make() if isinstance(v, Opaque) else v
+
+
 def vkind(v):
     """'bool' | 'int' | 'other': what the value denotes."""
     A, _, E = C()
@@ -91,6 +118,8 @@ def is_builtin(v):
 
 def tok(v):
     A, _, _ = C()
+    if isinstance(v, Opaque):
+        return "N"
     if isinstance(v, (A.BoolArray1D, A.IntArray1D)):
         return "A1 %s %d %s" % ("B" if isinstance(v, A.BoolArray1D) else "I", v.shape[0], exprio.show_list(v.data))
     if isinstance(v, (A.BoolArray2D, A.IntArray2D)):
@@ -156,25 +185,57 @@ SHAPES_1D = [0, 1, 2, 3]
 SHAPES_2D = [(h, w) for h in range(4) for w in range(4)]
 
 
-def mk_array(kind, shape, variant, rng=None):
-    """variant 0: consecutive variables; 1: variables from another offset; 2: composite / literal items"""
-    A, _, _ = C()
+def _build(cls, data, shape, build):
+    """class 6: the same array built from a list / tuple / generator / map / rows (2-D without an explicit shape)"""
+    if isinstance(shape, int):
+        src = {"list": lambda: data, "tuple": lambda: tuple(data), "gen": lambda: (x for x in data),
+               "map": lambda: map(lambda x: x, data), "rows": lambda: iter(data)}[build]()
+        return cls(src)
+    h, w = shape
+    if build == "rows" and h > 0:
+        return cls([data[y * w:(y + 1) * w] for y in range(h)])
+    if build == "gen" and h > 0:
+        return cls((tuple(data[y * w:(y + 1) * w]) for y in range(h)))
+    src = {"list": lambda: data, "tuple": lambda: tuple(data), "gen": lambda: (x for x in data),
+           "map": lambda: map(lambda x: x, data), "rows": lambda: iter(data)}[build]()
+    return cls(src, tuple(shape))
+
+
+def mk_array(kind, shape, variant, rng=None, build="list"):
+    """variant 0: consecutive variables; 1: variables from another offset; 2: composite / literal items;
+       3: items with integers outside CPython's small-int cache (created at run time) and wide-domain variables"""
+    A, _, E = C()
     n = shape if isinstance(shape, int) else shape[0] * shape[1]
     if kind == "bool":
         if variant == 0:
             data = [bvar(3 + i) for i in range(n)]
         elif variant == 1:
             data = [bvar(12 + i) for i in range(n)]
+        elif variant == 3:
+            data = [[ivar(i) < big(1000), bvar(i), ivar(i + 1) + big(300) >= big(302), big(-1000) != wide(i)][i % 4] for i in range(n)]
         else:
             data = [[bvar(3 + i) & bvar(5 + i), ~bvar(i), True, bvar(i) | bvar(i + 1), False][(i + variant) % 5] for i in range(n)]
-        return A.BoolArray1D(data) if isinstance(shape, int) else A.BoolArray2D(data, shape)
+        return _build(A.BoolArray1D if isinstance(shape, int) else A.BoolArray2D, data, shape, build)
     if variant == 0:
         data = [ivar(3 + i) for i in range(n)]
     elif variant == 1:
         data = [ivar(12 + i) for i in range(n)]
+    elif variant == 3:
+        data = [[big(257), ivar(i) + big(4096), big(-6), wide(i), ivar(i) - big(1 << 40), big(1000)][i % 6] for i in range(n)]
     else:
         data = [[ivar(3 + i) + ivar(i), -ivar(i), 5, ivar(i) - 2, bvar(i).cond(ivar(i), 0)][(i + variant) % 5] for i in range(n)]
-    return A.IntArray1D(data) if isinstance(shape, int) else A.IntArray2D(data, shape)
+    return _build(A.IntArray1D if isinstance(shape, int) else A.IntArray2D, data, shape, build)
+
+
+def big(v):
+    """an int object created at run time: outside the small-int cache (< -5 or > 256) two equal values are different objects"""
+    return int(str(v))
+
+
+def wide(i):
+    """integer variables whose bounds lie outside the small-int cache (ids 35, 37, 39)"""
+    _, _, E = C()
+    return E.IntVar(35 + 2 * (i % 3), big(-300 - i % 3), big(4096 + i % 3))
 
 
 def array_pool(variants=(0,)):
@@ -372,6 +433,226 @@ def gen_cases(ctx):
             cases.append(("fn", a, ("1", 0)))
             cases.append(("fni", a, ("X", 0)))
             cases.append(("fn", a, ("X", 0)))
+    cases.extend(gen_hard_cases(ctx))
+    return cases
+
+
+# ---- hardening round: one-shot iterables (1), integers outside the small-int cache (2), larger sizes (5),
+#      rare ways of writing the call (6).  Histories (3) are applied to EVERY case by run_with_history.
+
+IT_STYLES = [("list", "tuple", "gen"),       # the original alternation
+             ("gen", "gen", "gen"), ("map", "list", "map"), ("zip", "tuple", "zip"), ("iter", "reversed", "list"),
+             ("tuple", "gen", "iter"), ("list", "zip", "reversed"), ("gen", "list", "tuple"), ("reversed", "map", "gen")]
+
+
+def wrap_iter(items, how):
+    if how == "list":
+        return items
+    if how == "tuple":
+        return tuple(items)
+    if how == "gen":
+        return (x for x in items)
+    if how == "map":
+        return map(lambda x: x, items)
+    if how == "iter":
+        return iter(items)
+    if how == "reversed":
+        return reversed(items[::-1])
+    if how == "zip":
+        if len(items) >= 2 and len(items) % 2 == 0:
+            return zip(items[0::2], items[1::2])       # yields pairs; flattening restores the order
+        return (x for x in items)
+    raise ValueError(how)
+
+
+LARGE_2D = [(5, 7), (7, 5), (4, 5), (7, 7), (2, 7), (1, 9), (9, 1)]
+
+
+def gen_hard_cases(ctx):
+    rng = ctx.rng
+    A, K, E = C()
+    cases = []
+    ops = list(BINOPS)
+    builds = ("list", "tuple", "gen", "map", "rows")
+
+    def sorts_of(o):
+        return ("bool",) if o in BOOL_FORMS else ("int",) if o in INT_FORMS else ("bool", "int")
+
+    # (5)(6) larger arrays, built from every container form; every operator; array/array, array/scalar, scalar/array
+    big_scal = {"bool": [True, bvar(6), ivar(2) < big(1000)],
+                "int": [big(257), big(-6), big(1000), big(4096), big(-1000), big(1 << 40), wide(0), wide(1) + big(300), ivar(6)]}
+    shapes = LARGE_2D + [25, 21] + ([(8, 9), 40] if ctx.thorough else [])
+    for n, sh in enumerate(shapes):
+        for o in ops:
+            for k in sorts_of(o):
+                a = mk_array(k, sh, n % 4, build=builds[n % 5])
+                b = mk_array(k, sh, (n + 1) % 4, build=builds[(n + 2) % 5])
+                cases.append(("bin", o, a, b))
+                cases.append(("bin", o, b, a))
+                s = big_scal[k][(n + len(o)) % len(big_scal[k])]
+                cases.append(("bin", o, a, s))
+                cases.append(("bin", o, s, b))
+            wrong = "int" if o in BOOL_FORMS else "bool"
+            cases.append(("bin", o, mk_array(wrong, sh, 0), mk_array("bool" if wrong == "int" else "int", sh, 1)))
+        c, t, f = mk_array("bool", sh, n % 4), mk_array("int", sh, (n + 1) % 4, build=builds[(n + 1) % 5]), mk_array("int", sh, 3)
+        cases.append(("cond", c, t, f))
+        cases.append(("cond", c, big(1000), f))
+        cases.append(("cond", bvar(2), t, big(-1000)))
+        cases.append(("call", "cond", c, (t, wide(2))))
+        cases.append(("then", c, mk_array("bool", sh, 3)))
+        cases.append(("call", "then", c, (mk_array("bool", sh, 2),)))
+        cases.append(("un", "INV", c))
+        cases.append(("un", "NEG", f))
+        for m in ("fold_or", "fold_and", "count_true"):
+            cases.append(("call", m, c, ()))
+        cases.append(("call", "alldifferent", f, ()))
+    # (2) every small shape with run-time big integers as scalars and as items
+    for sh in SHAPES_1D + SHAPES_2D:
+        for o in ops:
+            for k in sorts_of(o):
+                a = mk_array(k, sh, 3)
+                for s in (big_scal[k][:2] if not ctx.thorough else big_scal[k]):
+                    cases.append(("bin", o, a, s))
+                    cases.append(("bin", o, s, a))
+                cases.append(("bin", o, a, mk_array(k, sh, 0)))
+    for s in big_scal["int"]:
+        for t in big_scal["int"][:4] + [ivar(0), ivar(1) + 1]:
+            for o in INT_FORMS + EQ_FORMS:
+                if not (is_builtin(s) and is_builtin(t)):
+                    cases.append(("bin", o, s, t))
+                    cases.append(("bin", o, t, s))
+        cases.append(("cond", bvar(1), s, big(300)))
+        cases.append(("cond", bvar(1), big(300), s))
+        cases.append(("call", "cond", bvar(3) & bvar(4), (s, s)))
+    # (5) more than 256 elements, and same element count with a different shape (1-D vs 2-D, transposed)
+    for (sa, sb) in [(300, 300), ((17, 16), (17, 16)), ((5, 7), (7, 5)), (35, (5, 7)), ((5, 7), 35), ((1, 9), (9, 1)), (9, (1, 9)),
+                     ((7, 7), (7, 7)), ((2, 7), (7, 2)), (300, 299), ((17, 16), (16, 17)), (272, (17, 16))]:
+        for (o, k) in (("add", "int"), ("and", "bool"), ("eq", "int"), ("ne", "bool"), ("lt", "int")):
+            cases.append(("bin", o, mk_array(k, sa, 0), mk_array(k, sb, 1)))
+        cases.append(("cond", mk_array("bool", sa, 0), mk_array("int", sb, 0), 1))
+        cases.append(("cond", bvar(0), mk_array("int", sa, 0), mk_array("int", sb, 1)))
+        cases.append(("then", mk_array("bool", sa, 1), mk_array("bool", sb, 0)))
+    # (6) keyword arguments
+    for sh in [2, (2, 3), (1, 1), (0, 2), 0, (5, 7)]:
+        c, c2, t, f = mk_array("bool", sh, 0), mk_array("bool", sh, 2), mk_array("int", sh, 1), mk_array("int", sh, 2)
+        for (cc, tt, ff) in ((c, t, f), (c, 3, f), (bvar(1), t, 0), (True, t, f), (c, ivar(1), ivar(2)), (c, c2, f), (t, t, f), (c, t, None)):
+            cases.append(("cond", cc, tt, ff, St("kw")))
+            if not is_builtin(cc) and vkind(cc) == "bool":
+                cases.append(("call", "cond", cc, (tt, ff), St("kw")))
+        for (x, y) in ((c, c2), (c, True), (bvar(1), c), (False, c2), (c, t), (t, c), (c, None)):
+            cases.append(("then", x, y, St("kw")))
+            if not is_builtin(x) and vkind(x) == "bool":
+                cases.append(("call", "then", x, (y,), St("kw")))
+        for m in ("__and__", "__ror__", "__xor__", "__eq__", "__ne__"):
+            cases.append(("call", m, c, (c2,), St("kw")))
+            cases.append(("call", m, bvar(2), (c2,), St("kw")))
+        for m in ("__add__", "__rsub__", "__lt__", "__ge__", "__eq__"):
+            cases.append(("call", m, t, (f,), St("kw")))
+            cases.append(("call", m, ivar(2), (big(1000),), St("kw")))
+        shp = (sh,) if isinstance(sh, int) else sh
+        cases.append(("elem", "ADD", shp, (t, f), St("kw")))
+        cases.append(("elem", "IF", shp, (c, t, 2), St("kw")))
+        cases.append(("elem", "NOT", shp, (c,), St("kw")))
+    for x in (bvar(0), bvar(1) & bvar(2), True):
+        for y in (bvar(3), False, ivar(0), None):
+            cases.append(("then", x, y, St("kw")))
+            cases.append(("cond", x, ivar(0), y, St("kw")))
+    # (1) plain containers / one-shot iterables where an array or a scalar is wanted (cond, then, operators): they are
+    #     objects of an unrelated class
+    for how in ("gen", "map", "zip", "iter", "reversed", "list", "tuple"):
+        ob = Opaque(how, [bvar(0), bvar(1)])
+        oi = Opaque(how, [ivar(0), ivar(1)])
+        b2, i2 = mk_array("bool", 2, 0), mk_array("int", 2, 0)
+        for (cc, tt, ff) in ((ob, i2, 0), (b2, oi, 0), (b2, i2, oi), (bvar(2), oi, 1), (bvar(2), 1, oi), (ob, 1, 2)):
+            cases.append(("cond", cc, tt, ff))
+            if not isinstance(cc, Opaque):
+                cases.append(("call", "cond", cc, (tt, ff)))
+        for (x, y) in ((ob, b2), (b2, ob), (bvar(2), ob), (ob, bvar(2)), (True, ob)):
+            cases.append(("then", x, y))
+            if not isinstance(x, Opaque) and not is_builtin(x):
+                cases.append(("call", "then", x, (y,)))
+        for o in ops:
+            for (l, r) in ((ob, b2), (b2, ob), (oi, i2), (i2, oi), (bvar(2), ob), (oi, ivar(2))):
+                cases.append(("bin", o, l, r))
+    # (1) aggregate helpers: every way of writing the nesting, at top level and nested
+    def nest(depth, leaves, top=False):
+        r = rng.random()
+        if not top and (depth == 0 or r < 0.3):
+            return rng.choice(leaves)
+        return [nest(depth - 1, leaves) for _ in range(rng.choice([0, 1, 2, 2, 3, 4]))]
+    b33, i33 = mk_array("bool", (3, 3), 0), mk_array("int", (3, 3), 0)
+    bool_leaves = [True, False, bvar(0), bvar(1), bvar(2) & bvar(3), ~bvar(4), ivar(0) < big(1000)] + \
+                  [mk_array("bool", sh, v, build=b) for (sh, v, b) in ((0, 0, "gen"), (2, 2, "tuple"), ((1, 3), 0, "rows"), ((2, 2), 3, "map"), ((0, 2), 0, "list"))] + \
+                  [K.then(b33, mk_array("bool", (3, 3), 1)), ~b33[0], i33 < 2, b33.conv2d(2, 2, "or")]
+    int_leaves = [0, 1, big(1000), big(-7), big(1000), ivar(0), ivar(1), ivar(2) + big(257), -ivar(3), wide(0)] + \
+                 [mk_array("int", sh, v, build=b) for (sh, v, b) in ((0, 0, "gen"), (2, 2, "tuple"), ((1, 3), 0, "rows"), ((2, 2), 3, "map"), ((0, 2), 0, "list"))] + \
+                 [b33.cond(i33, 0), K.cond(bvar(1), i33[1], big(300)), -i33[2]]
+    mixed = bool_leaves + int_leaves + [None]
+    nh = 120 if ctx.thorough else 30
+    for which in ("CT", "FO", "FA", "AD"):
+        good = int_leaves if which == "AD" else bool_leaves
+        arr = i33 if which == "AD" else b33
+        cells = [(y, x) for y in range(3) for x in range(3)]
+        for st in range(1, len(IT_STYLES)):
+            sty = St("it%d" % st)
+            cases.append(("h", which, ([],), sty))
+            cases.append(("h", which, ([[], [[]]], []), sty))
+            cases.append(("h", which, ([arr[p] for p in cells],), sty))                       # count_true(b[p] for p in cells)
+            cases.append(("h", which, ([arr[p] for p in cells[:3]], [arr[p] for p in cells[3:]]), sty))
+            cases.append(("h", which, ([[arr[p], arr[q]] for (p, q) in zip(cells[:4], cells[4:8])],), sty))
+            cases.append(("h", which, (good[0], [arr[0], [arr[1, 0:2], good[1]]], good[2]), sty))
+            for _ in range(nh):
+                nargs = rng.choice([1, 1, 2, 3])
+                bad = rng.random() < 0.15
+                cases.append(("h", which, tuple(nest(3, mixed if bad else good, top=(j == 0)) for j in range(nargs)), sty))
+            for _ in range(6):
+                lits = [True, False] if which != "AD" else [0, 1, big(300), big(300), big(-9)]
+                cases.append(("h", which, tuple(nest(2, lits, top=True) for _ in range(rng.choice([1, 2]))), sty))
+        # (5) long argument lists, (2) more than 256 literal items
+        long_items = [good[i % 7] for i in range(30)]
+        for st in (0, 1, 2, 3):
+            cases.append(("h", which, (long_items,), St("it%d" % st)))
+            cases.append(("h", which, tuple(long_items), St("it%d" % st)))
+        if which != "AD":
+            cases.append(("h", which, ([True] * 300,), St("it1")))
+            cases.append(("h", which, ([True] * 300 + [bvar(0)], [False] * 3), St("it2")))
+            cases.append(("h", which, ([bvar(i) for i in range(20)] * 14,), St("it1")))
+            cases.append(("h", which, (mk_array("bool", (5, 7), 2), mk_array("bool", 25, 0)), St("it5")))
+        else:
+            cases.append(("h", which, ([big(1000), big(1000)],), St("it1")))
+            cases.append(("h", which, ([big(1000), big(1001), big(-1000)],), St("it3")))
+            cases.append(("h", which, (list(range(250, 262)),), St("it2")))
+            cases.append(("h", which, (list(range(250, 262)) + [big(255), big(260)],), St("it1")))
+            cases.append(("h", which, (mk_array("int", (5, 7), 3), mk_array("int", 25, 0)), St("it5")))
+    # (5)(6) conv2d: larger arrays, windows larger than / equal to the array, non-square; keyword / run-time string forms
+    for n, sh in enumerate(LARGE_2D + [(3, 3), (2, 3), (1, 1), (0, 3)]):
+        h, w = sh
+        a = mk_array("bool", sh, n % 3 if n % 3 != 1 else 3, build=builds[n % 5])
+        wins = {(1, 1), (1, 2), (2, 1), (2, 2), (2, 3), (3, 2), (1, w), (h, 1), (h, w), (h + 1, w), (h, w + 1), (h + 1, 1), (1, w + 1),
+                (h + 3, w + 3), (h - 1, w), (h, w - 1), (5, 7), (7, 5), (0, 1), (1, 0), (-1, 2), (big(1000), 1), (1, big(1000)), (3, 1), (1, 3)}
+        for (kh, kw) in sorted(wins):
+            for sty in ("", "kw", "rt", "kwrt"):
+                o = ("and", "or")[(kh + kw + len(sty)) % 2]
+                cases.append(("conv", a, kh, kw, o) + ((St(sty),) if sty else ()))
+        for o in ("xor", "AND", "andor", None, 0):
+            cases.append(("conv", a, 1, 1, o, St("kw")))
+    # (5)(6) four_neighbors: larger boards, every cell, every way of writing the coordinates
+    for sh in LARGE_2D + [(2, 2), (3, 3), (1, 1), (0, 0)]:
+        for kind in ("bool", "int"):
+            a = mk_array(kind, sh, 0 if kind == "bool" else 3)
+            for y in range(-1, sh[0] + 1):
+                for x in range(-1, sh[1] + 1):
+                    for (form, sty) in (("2", ""), ("T", ""), ("2", "kw"), ("T", "kw"), ("T", "xnone")):
+                        if sh[0] * sh[1] > 9 and sty == "" and (y + x) % 2:
+                            continue
+                        tail = (St(sty),) if sty else ()
+                        cases.append(("fni", a, (form, y, x)) + tail)
+                        cases.append(("fn", a, (form, y, x)) + tail)
+            for sty in ("kw", "xnone"):
+                cases.append(("fni", a, ("1", 0), St(sty)))
+                cases.append(("fn", a, ("1", 0), St(sty)))
+                cases.append(("fni", a, ("X", 0), St("kw")))
+                cases.append(("fn", a, ("X", 0), St("kw")))
     return cases
 
 
@@ -385,19 +666,17 @@ def fn_call_args(form):
     return ((0, 0), form[1])
 
 
-def as_py_nest(n, depth=0):
-    """lists become lists / tuples / generators alternately (all are iterables for flatten_iterator)."""
+def as_py_nest(n, depth=0, style=0):
+    """lists become lists / tuples / generators / map / zip / iter / reversed objects, chosen by nesting depth from
+    IT_STYLES[style] (all are iterables for flatten_iterator; style 0 is list / tuple / generator)."""
     if isinstance(n, (list, tuple)):
-        items = [as_py_nest(x, depth + 1) for x in n]
-        if depth % 3 == 0:
-            return items
-        if depth % 3 == 1:
-            return tuple(items)
-        return (x for x in items)
+        items = [as_py_nest(x, depth + 1, style) for x in n]
+        return wrap_iter(items, IT_STYLES[style][depth % 3])
     return n
 
 
 def model_request(case):
+    case, _ = split(case)
     f = case[0]
     if f == "bin":
         _, o, a, b = case
@@ -433,32 +712,51 @@ def model_request(case):
 
 def impl_thunk(case):
     A, K, E = C()
+    case, sty = split(case)
     f = case[0]
     if f == "bin":
         _, o, a, b = case
-        return lambda: BINOPS[o](a, b)
+        return lambda: BINOPS[o](real(a), real(b))
     if f == "un":
         return lambda: (operator.invert if case[1] == "INV" else operator.neg)(case[2])
     if f == "call":
         _, m, self, args = case
-        return lambda: getattr(self, m)(*args)
+        if sty == "kw":
+            names = {"cond": ("t", "f"), "then": ("other",)}.get(m, ("other",))
+            return lambda: getattr(self, m)(**{k: real(v) for (k, v) in zip(names, args)})
+        return lambda: getattr(self, m)(*[real(x) for x in args])
     if f == "cond":
-        return lambda: K.cond(case[1], case[2], case[3])
+        if sty == "kw":
+            return lambda: K.cond(c=case[1], t=case[2], f=case[3])
+        return lambda: K.cond(real(case[1]), real(case[2]), real(case[3]))
     if f == "then":
-        return lambda: K.then(case[1], case[2])
+        if sty == "kw":
+            return lambda: K.then(x=case[1], y=case[2])
+        return lambda: K.then(real(case[1]), real(case[2]))
     if f == "elem":
         _, o, shp, opsl = case
+        if sty == "kw":
+            return lambda: A._elementwise(op=E.Op[o], shape=shp, operands=list(opsl))
         return lambda: A._elementwise(E.Op[o], shp, list(opsl))
     if f == "h":
         fn = {"CT": K.count_true, "FO": K.fold_or, "FA": K.fold_and, "AD": K.alldifferent}[case[1]]
-        return lambda: fn(*[as_py_nest(n) for n in case[2]])
+        style = int(sty[2:]) if sty.startswith("it") else 0
+        return lambda: fn(*[as_py_nest(n, 0, style) for n in case[2]])
     if f == "conv":
         _, a, kh, kw, o = case
+        if "rt" in sty and isinstance(o, str):
+            o = "".join(list(o))          # an equal string that is a different object from the literal in the source
+        if "kw" in sty:
+            return lambda: a.conv2d(height=kh, width=kw, op=o)
         return lambda: a.conv2d(kh, kw, o)
-    if f == "fni":
-        return lambda: case[1].four_neighbor_indices(*fn_call_args(case[2]))
-    if f == "fn":
-        return lambda: case[1].four_neighbors(*fn_call_args(case[2]))
+    if f in ("fni", "fn"):
+        meth = getattr(case[1], "four_neighbor_indices" if f == "fni" else "four_neighbors")
+        args = fn_call_args(case[2])
+        if sty == "kw":
+            return lambda: meth(**dict(zip(("y", "x"), args)))
+        if sty == "xnone" and len(args) == 1:
+            return lambda: meth(args[0], None)
+        return lambda: meth(*args)
     raise ValueError(f)
 
 
@@ -474,9 +772,215 @@ def run_case_raw(case):
     return ser_result(r), r
 
 
+# ------------------------------------------------------------------ histories (input class 3)
+
+HIST2 = "second-call: second call with the same arguments, after the caller changed the list / .data / .operands of the first result"
+HIST3 = "fresh-arrays: call with fresh arrays of the same shape and items, after the caller changed the first result"
+
+
+def operand_ids(case):
+    """ids of every array / expression object reachable from the operands of a case"""
+    _, _, E = C()
+    core, _ = split(case)
+    seen = set()
+
+    def walk(v):
+        if isinstance(v, (list, tuple)):
+            for x in v:
+                walk(x)
+        elif isinstance(v, Opaque):
+            walk(v.items)
+        elif id(v) in seen:
+            return
+        elif is_array(v):
+            seen.add(id(v))
+            for x in v.data:
+                walk(x)
+        elif isinstance(v, E.Expr):
+            seen.add(id(v))
+            for x in v.operands:
+                walk(x)
+    walk(core[1:])
+    return seen
+
+
+def mutate_result(r, k, protected):
+    """what a caller may do with a result it owns: change the returned list, the .data of a returned array, the
+    .operands of a returned (new) expression node.  Returns (description, the list, its former content), or None when
+    nothing was changed."""
+    A, _, E = C()
+    if id(r) in protected:
+        return None                      # the result IS one of the operands (e.g. BoolExpr.fold_or returns self)
+    if isinstance(r, list):
+        lst, sent, what = r, (0, 0), "returned list"
+    elif is_array(r) and isinstance(getattr(r, "data", None), list):
+        lst, sent, what = r.data, (True if isinstance(r, (A.BoolArray1D, A.BoolArray2D)) else 0), "result.data"
+    elif isinstance(r, E.Expr) and not r.is_variable() and isinstance(r.operands, list):
+        lst, sent, what = r.operands, (True if isinstance(r, E.BoolExpr) else 0), "result.operands"
+    else:
+        return None
+    saved = list(lst)
+    if not lst:
+        lst.append(sent)
+        return what + ".append(x)", lst, saved
+    if k % 3 == 0:
+        del lst[:]
+        return what + ".clear()", lst, saved
+    if k % 3 == 1:
+        lst.append(lst[0])
+        return what + ".append(first)", lst, saved
+    lst.pop(0)
+    lst.reverse()
+    return what + ".pop(0); .reverse()", lst, saved
+
+
+def clone_case(case):
+    """the same case with every array operand replaced by a fresh array object (fresh data list, fresh shape tuple made of
+    run-time integers) holding the same items; the same object is cloned once."""
+    memo = {}
+
+    def cl(v):
+        if isinstance(v, St):
+            return v
+        if isinstance(v, list):
+            return [cl(x) for x in v]
+        if isinstance(v, tuple):
+            return tuple(cl(x) for x in v)
+        if isinstance(v, Opaque):
+            return Opaque(v.how, cl(v.items))
+        if is_array(v):
+            if id(v) not in memo:
+                if len(v.shape) == 1:
+                    memo[id(v)] = type(v)(list(v.data))
+                else:
+                    memo[id(v)] = type(v)(list(v.data), tuple(int(str(n)) for n in v.shape))
+            return memo[id(v)]
+        return v
+    return cl(case)
+
+
+def _outcome(thunk):
+    try:
+        r = thunk()
+    except BaseException as ex:  # noqa
+        if isinstance(ex, (KeyboardInterrupt, SystemExit)):
+            raise
+        return ("err", vlib.err_name(ex)), None
+    return ser_result(r), r
+
+
+def freeze(r):
+    """a shallow copy of a result (own list / .data / .operands): what the caller saw at that moment"""
+    import copy
+    _, _, E = C()
+    if isinstance(r, list):
+        return list(r)
+    if is_array(r) and isinstance(getattr(r, "data", None), list):
+        c = copy.copy(r)
+        c.data = list(r.data)
+        return c
+    if isinstance(r, E.Expr) and not r.is_variable() and isinstance(r.operands, list):
+        c = copy.copy(r)
+        c.operands = list(r.operands)
+        return c
+    return r
+
+
+HISTS = "related-call: call of a related helper on the same arguments, after the caller changed the result of %s"
+
+
+def siblings(case):
+    """related calls on the same objects (they may share internal state with the case's function)"""
+    core, sty = split(case)
+    tail = (St(sty),) if sty else ()
+    f = core[0]
+    if f in ("fni", "fn"):
+        return [(("fn" if f == "fni" else "fni"),) + core[1:] + tail]
+    if f == "conv" and core[4] in ("and", "or"):
+        return [core[:4] + ("or" if core[4] == "and" else "and",) + tail]
+    if f == "call" and core[1] in ("fold_or", "fold_and", "count_true") and is_array(core[2]):
+        return [("call", m, core[2], ()) for m in ("fold_or", "fold_and", "count_true") if m != core[1]]
+    if f == "h":
+        return [("h", w) + core[2:] + tail for w in ("CT", "FO", "FA") if w != core[1] and core[1] != "AD"][:1]
+    return []
+
+
+def run_with_history(case, k, req=None):
+    """first call; operands must be unchanged; the caller changes the result; operands must still be unchanged (no
+    aliasing); second call on the same objects; third call on fresh arrays of the same shape; finally the caller's
+    change is undone (the first result is what `search` evaluates).
+    Returns (io, raw, extras, operand_changes): extras = [(tag, io_n, raw_n)], operand_changes = [(tag, before, after)]."""
+    if req is None:
+        req = model_request(case)
+    io, raw = _outcome(impl_thunk(case))
+    changes = []
+    s1 = model_request(case)
+    if s1 != req:
+        changes.append(("the call changed its operands", req, s1))
+    mut = None
+    sibs = [(sc, _outcome(impl_thunk(sc))[0]) for sc in siblings(case)] if raw is not None else []
+    if raw is not None:
+        try:
+            mut = mutate_result(raw, k, operand_ids(case))
+        except Exception:  # noqa  (e.g. an immutable container was returned)
+            mut = None
+    how = mut[0] if mut else None
+    extras = []
+    try:
+        if mut is not None:
+            s2 = model_request(case)
+            if s2 != s1:
+                changes.append(("the result shares storage with an operand (%s changed the operand)" % how, s1, s2))
+                return io, raw, extras, changes
+        io2, raw2 = _outcome(impl_thunk(case))
+        extras.append((HIST2 + (" [%s]" % how if how else ""), io2, freeze(raw2) if io2 != io else raw2))
+        fresh = clone_case(case)
+        if model_request(fresh) == req:
+            io3, raw3 = _outcome(impl_thunk(fresh))
+            extras.append((HIST3 + (" [%s]" % how if how else ""), io3, freeze(raw3) if io3 != io else raw3))
+        for (sc, sio) in sibs:
+            sio2, sraw2 = _outcome(impl_thunk(sc))
+            extras.append((HISTS % case_id(case) + (" [%s]" % how if how else ""), sio2, freeze(sraw2) if sio2 != sio else sraw2, sc, sio))
+        s3 = model_request(case)
+        if s3 != s1 and not changes:
+            changes.append(("a later call changed the operands", s1, s3))
+    finally:
+        if mut is not None:
+            mut[1][:] = mut[2]
+    return io, raw, extras, changes
+
+
+def run_all(ctx, cases, reqs=None):
+    """-> recs [(case, io, raw, history tag)], hist [(case index, tag, io_n)], changes [(case, tag, before, after)]"""
+    recs, hist, changes = [], [], []
+    for n, case in enumerate(cases):
+        io, raw, extras, chg = run_with_history(case, n, reqs[n] if reqs else None)
+        recs.append((case, io, raw, ""))
+        for ex in extras:
+            (tag, io_n, raw_n) = ex[:3]
+            if len(ex) == 5:              # a related call: compared with its own outcome before the caller's change
+                hist.append((ex[3], tag, io_n, ex[4]))
+                if io_n != ex[4]:
+                    recs.append((ex[3], io_n, raw_n, tag))
+                continue
+            hist.append((n, tag, io_n))
+            if io_n != io:
+                recs.append((case, io_n, raw_n, tag))
+        for (tag, before, after) in chg:
+            changes.append((case, tag, before, after))
+    return recs, hist, changes
+
+
 def case_id(case):
     """short stable description of a case (operand classes / shapes), used for keys and the distribution."""
+    core, sty = split(case)
+    return _case_id(core) + (" {%s}" % sty if sty else "")
+
+
+def _case_id(case):
     def d(v):
+        if isinstance(v, Opaque):
+            return "%s-of-%d" % (v.how, len(v.items))
         if isinstance(v, (list, tuple)):
             return "[" + ",".join(d(x) for x in v) + "]"
         if is_array(v):
@@ -932,14 +1436,30 @@ def correspond(ctx):
     cases = gen_cases(ctx)
     reqs = [model_request(c) for c in cases]
     outs = m.batch(reqs)
-    ctx._c12 = []
-    for case, o in zip(cases, outs):
-        mo = parse_model(o)
-        io, raw = run_case_raw(case)
+    mos = [parse_model(o) for o in outs]
+    recs, hist, changes = run_all(ctx, cases, reqs)
+    ctx._c12 = (recs, changes)
+    n = 0
+    for (case, io, raw, tag) in recs:
+        if tag:
+            continue                      # a differing later outcome: compared with the model through `hist` below
         ctx.count("form:" + case[0])
         ctx.count("impl-outcome:" + (io[0] if io[0] != "err" else io[1]))
-        ctx.corr(case[0], (case_id(case), model_request(case)), mo, io)
-        ctx._c12.append((case, io, raw))
+        ctx.corr(case[0], (case_id(case), reqs[n]), mos[n], io)
+        n += 1
+    # histories: the model is a pure function, so every later call must give what the model gives for the first
+    for h in hist:
+        if len(h) == 4:
+            ctx.corr("hist:related:" + h[0][0], (case_id(h[0]), h[1].split(",")[0]), h[3], h[2])
+            continue
+        (n, tag, io_n) = h
+        ctx.corr("hist:" + cases[n][0], (case_id(cases[n]), reqs[n], tag.split(",")[0]), mos[n], io_n)
+    changed = {}
+    for (case, tag, before, after) in changes:
+        changed[id(case)] = True
+        ctx.corr("operands-unchanged", (case_id(case), before, tag), before, after)
+    ctx.count("corr:operands-unchanged", len(cases) - len(changed))
+    ctx.cases += len(cases) - len(changed)
 
 
 # ------------------------------------------------------------------ search (the property itself)
@@ -1059,6 +1579,7 @@ def expectation(case):
          ("array", kind, shape, fn)  -> array of that kind/shape, element i denotes fn(i, env)
          ("scalar", kind, fn)        -> expression of that kind denoting fn(env)
          ("indices", list)           -> list of index pairs (compared as a set, no duplicates)"""
+    case, _ = split(case)
     f = case[0]
 
     def kinds_shapes(vals):
@@ -1190,12 +1711,11 @@ def search(ctx):
     """the property itself: real results vs the pointwise / mathematical meaning."""
     A, K, E = C()
     rng = ctx.rng
-    recs = getattr(ctx, "_c12", None)
-    if not recs:
-        recs = []
-        for case in gen_cases(ctx):
-            io, raw = run_case_raw(case)
-            recs.append((case, io, raw))
+    got_c = getattr(ctx, "_c12", None)
+    if got_c:
+        recs, changes = got_c
+    else:
+        recs, _, changes = run_all(ctx, gen_cases(ctx))
     try:
         model = ctx.model("C12")
     except Exception:
@@ -1204,64 +1724,74 @@ def search(ctx):
     envs = [Env(rng) for _ in range(nenv)]
     pending = []   # (key, what, detail, env index, tree, expected wire)
 
-    def viol(case, what, detail):
+    def viol(case, what, detail, tag=""):
         d = {"case": case_id(case), "request": model_request(case)}
+        if tag:
+            d["history"] = tag
+            what = what + " — on the " + tag.split(": ", 1)[1].split(",")[0]
         d.update(detail)
-        ctx.violation(case[0] + ":" + case_id(case), what, d)
+        ctx.violation(split(case)[0][0] + ":" + case_id(case) + ("@" + tag.split(":")[0] if tag else ""), what, d)
 
-    for (case, io, raw) in recs:
+    for (case, tag, before, after) in changes:
+        ctx.prop_case("prop-operands-unchanged", (before, tag))
+        ctx.violation(split(case)[0][0] + ":" + case_id(case) + "@operands",
+                      "an operand no longer denotes what it denoted before the call: " + tag,
+                      {"case": case_id(case), "operands_before": before, "operands_after": after})
+
+    for (case, io, raw, tag) in recs:
         try:
             exp = expectation(case)
         except IllTyped:
             continue
         if exp is None:
             continue
-        ctx.prop_case("prop-" + case[0], model_request(case))
+        core = split(case)[0]
+        ctx.prop_case("prop-" + ("hist-" if tag else "") + core[0], (case_id(case), model_request(case), tag))
         if exp[0] == "raise":
-            if io == ("ni",) and case[0] == "call" and case[1] in DUNDER_SEM:
+            if io == ("ni",) and core[0] == "call" and core[1] in DUNDER_SEM:
                 continue
             if io[0] != "err":
-                viol(case, "ill-typed or ill-shaped use is not rejected with an exception", {"observed": io})
+                viol(case, "ill-typed or ill-shaped use is not rejected with an exception", {"observed": io}, tag)
             continue
-        if io == ("ni",) and case[0] == "call" and case[1] in DUNDER_SEM:
+        if io == ("ni",) and core[0] == "call" and core[1] in DUNDER_SEM:
             continue
         if io[0] != "ok":
-            viol(case, "well-typed use does not produce a result", {"observed": io})
+            viol(case, "well-typed use does not produce a result", {"observed": io}, tag)
             continue
         if exp[0] == "indices":
-            if sorted(raw) != sorted(exp[1]) or len(set(raw)) != len(raw):
-                viol(case, "four_neighbor_indices is not the set of in-bounds orthogonal neighbours", {"observed": io, "expected": exp[1]})
+            if not isinstance(raw, list) or sorted(raw) != sorted(exp[1]) or len(set(raw)) != len(raw):
+                viol(case, "four_neighbor_indices is not the set of in-bounds orthogonal neighbours", {"observed": io, "expected": exp[1]}, tag)
             continue
         if exp[0] == "cells":
             want_cls = {"bool": A.BoolArray1D, "int": A.IntArray1D}[exp[1]]
-            a = case[1]
+            a = core[1]
             cells = [a.data[y * a.shape[1] + x] for (y, x) in exp[2]]
             if type(raw) is not want_cls or sorted(map(id, raw.data)) != sorted(map(id, cells)):
-                viol(case, "four_neighbors is not the in-bounds orthogonal neighbour cells", {"observed": io})
+                viol(case, "four_neighbors is not the in-bounds orthogonal neighbour cells", {"observed": io}, tag)
             continue
         if exp[0] == "array":
             _, kind, shp, fn = exp
             want_cls = {("bool", 1): A.BoolArray1D, ("int", 1): A.IntArray1D, ("bool", 2): A.BoolArray2D, ("int", 2): A.IntArray2D}[(kind, len(shp))]
             if type(raw) is not want_cls or tuple(raw.shape) != tuple(shp):
-                viol(case, "result is not an array of the operands' shape and the operator's kind", {"observed": io, "expected_shape": list(shp)})
+                viol(case, "result is not an array of the operands' shape and the operator's kind", {"observed": io, "expected_shape": list(shp)}, tag)
                 continue
             size = 1
             for s in shp:
                 size *= s
             if len(raw.data) != size:
-                viol(case, "result data length differs from the shape", {"observed": io})
+                viol(case, "result data length differs from the shape", {"observed": io}, tag)
                 continue
             for i in range(size):
                 for ei, env in enumerate(envs):
-                    pending.append((case, i, ei, raw.data[i], val_wire(fn(i, env))))
+                    pending.append(((case, tag), i, ei, raw.data[i], val_wire(fn(i, env))))
         else:
             _, kind, fn = exp
             okcls = E.BoolExpr if kind == "bool" else E.IntExpr
             if not isinstance(raw, okcls) and not (type(raw) is bool and kind == "bool"):
-                viol(case, "result is not an expression of the operator's kind", {"observed": io})
+                viol(case, "result is not an expression of the operator's kind", {"observed": io}, tag)
                 continue
             for ei, env in enumerate(envs):
-                pending.append((case, -1, ei, raw, val_wire(fn(env))))
+                pending.append(((case, tag), -1, ei, raw, val_wire(fn(env))))
     # evaluate all result trees: extracted eval and the independent evaluator
     got = None
     if model is not None:
@@ -1269,7 +1799,7 @@ def search(ctx):
             got = model.batch(["EVAL %s %s" % (envs[ei].wire(), exprio.show(tree)) for (_, _, ei, tree, _) in pending])
         except Exception as ex:  # noqa
             ctx.note("extracted eval unavailable in search: %r" % (ex,))
-    for n, (case, i, ei, tree, want) in enumerate(pending):
+    for n, ((case, tag), i, ei, tree, want) in enumerate(pending):
         pv = pyeval_wire(tree, envs[ei])
         gv = got[n] if got is not None else pv
         ctx.cases += 1
@@ -1278,7 +1808,7 @@ def search(ctx):
         if gv != want or pv != want:
             viol(case, "element %d does not denote the pointwise / mathematical meaning" % i if i >= 0 else
                  "result does not denote the mathematical meaning",
-                 {"element": i, "tree": exprio.show(tree), "env": envs[ei].wire(), "value": gv, "value_pyeval": pv, "expected": want})
+                 {"element": i, "tree": exprio.show(tree), "env": envs[ei].wire(), "value": gv, "value_pyeval": pv, "expected": want}, tag)
 
 
 def replay(ctx, rp):
